@@ -46,6 +46,9 @@ PLANS = {
                 thorough=[("multi", 2000, ""), ("multix", 1500, ""), ("absorb", 400, "")]),
 }
 
+PLANS["C19"] = dict(engine=INO, mc=["MC_Recurse"],
+                    quick=[("recurse", 300, "")],
+                    thorough=[("recurse", 8000, "")])
 PLANS["C15"] = dict(engine="ops")
 PLANS["C16"] = dict(engine="ops")
 PLANS["C20"] = dict(engine="diff")
